@@ -96,7 +96,7 @@ CHECKS["C02"] = NS(
         "rank-1 tensors: the whole vector is one group (what quanto's reduction does and test_affine_quantize_integer_tensor relies on)",
         "re-quantization equality asserted for fp32/fp16 on groups whose scale is positive, finite and not subnormal",
     ],
-    PLAN={"quick": [("affine", 16, {"n": 500})], "thorough": [("affine", 16, {"n": 12000})]},
+    PLAN={"quick": [("affine", 12, {"n": 660}), ("order", 4, {"n": 150})], "thorough": [("affine", 16, {"n": 12000}), ("order", 8, {"n": 5000})]},
 )
 
 CHECKS["C03"] = NS(
@@ -233,7 +233,7 @@ CHECKS["C07"] = NS(
         "1-D activations are outside the property's domain (batch rank 1-3)",
         "route functions are called directly only where their preconditions hold (int GEMM: both int8 and in_features > 1; int8-pack: bf16 x int8, in_features % 16 == 0)",
     ],
-    PLAN={"quick": [("grid", 8, {}), ("kernels", 8, {"n": 500})], "thorough": [("grid", 8, {}), ("kernels", 16, {"n": 12000})]},
+    PLAN={"quick": [("grid", 6, {}), ("kernels", 6, {"n": 660}), ("order", 4, {"n": 150})], "thorough": [("grid", 8, {}), ("kernels", 16, {"n": 12000}), ("order", 8, {"n": 5000})]},
 )
 
 CHECKS["C08"] = NS(
